@@ -332,3 +332,128 @@ Proof.
     all: try (exfalso; symmetry in Hv; apply nth_error_None in Hv; lia).
 Qed.
 End R.
+
+(* ================================================================ WaitInv *)
+(* ---- consumer waits, producer wakes *)
+Definition c_reg pc := match pc with
+  | CPop (CLoop true) _ | CPop (CLoopD true) _ | CSc (SLoop true) | CPark | CSwap | CFence => true | _ => false end.
+Definition c_regging pc := match pc with CReg RgSt | CReg RgUnlock => true | _ => false end.
+Definition c_rgst pc := match pc with CReg RgSt => true | _ => false end.
+Definition c_unreg0 pc := match pc with CUnreg _ UnLock => true | _ => false end.
+Definition c_unreg1 pc := match pc with CUnreg _ UnSt | CUnreg _ UnUnlock => true | _ => false end.
+Definition c_fresh pc := match pc with
+  | CPop CTry1 _ | CPop CTry2 _ | CPop CFirst _ | CSc STry | CPop (CLoop false) _ | CPop (CLoopD false) _
+  | CSc (SLoop false) | CSpinDec | CReg _ => true | _ => false end.
+Definition c_dz pc := match pc with CSc (SLoop true) | CPark => true | _ => false end.
+Definition c_ispark pc := match pc with CPark => true | _ => false end.
+Definition c_isswap pc := match pc with CSwap => true | _ => false end.
+Definition p_taking pc := match pc with PWake _ WkSt0 | PWake _ WkStN => true | _ => false end.
+Definition p_notified pc := match pc with PWake _ (WkUnlock true) | PWake _ WkUnpark => true | _ => false end.
+Definition p_owes pc := match pc with PUnreg UOk _ | PNfFence | PNfLd => true | _ => false end.
+Definition p_wklock pc := match pc with PWake _ WkLock => true | _ => false end.
+Definition p_dwklock pc := match pc with PWake WDrop WkLock => true | _ => false end.
+
+Ltac wcl := cbn [c_reg c_regging c_rgst c_unreg0 c_unreg1 c_fresh c_dz c_ispark c_isswap p_taking p_notified p_owes p_wklock p_dwklock
+                 p_holds_cw c_holds_cw p_holds_pw c_holds_pw p_aftersub c_aftersub p_afterst c_afterst p_isdrain c_isdrain orb andb negb].
+Ltac wcl_all := cbn [c_reg c_regging c_rgst c_unreg0 c_unreg1 c_fresh c_dz c_ispark c_isswap p_taking p_notified p_owes p_wklock p_dwklock
+                 p_holds_cw c_holds_cw p_holds_pw c_holds_pw p_aftersub c_aftersub p_afterst c_afterst p_isdrain c_isdrain orb andb negb] in *.
+
+Record WCa (s : st) : Prop := {
+  W_S : cw_slot s = true -> c_reg (cpc s) || c_regging (cpc s) || c_unreg0 (cpc s) = true;
+  W_C2 : c_regging (cpc s) = true -> cw_slot s = true;
+  W_P1 : p_holds_cw (ppc s) = true -> cw_slot s = false;
+  W_C1 : c_unreg1 (cpc s) = true -> cw_slot s = false;
+  W_G : cw_slot s = true -> c_rgst (cpc s) = false -> recv_w s = 1;
+  W_Lv : p_taking (ppc s) = true -> c_reg (cpc s) || c_unreg0 (cpc s) = true /\ c_notif s = false;
+  W_N : c_notif s = true -> cw_slot s = false;
+  W_Nf : c_fresh (cpc s) = true -> c_notif s = false;
+  W_Nt : p_notified (ppc s) = true -> c_reg (cpc s) = true -> cw_slot s = false -> c_notif s = true;
+  W_T : c_reg (cpc s) = true -> cw_slot s = false ->
+        p_taking (ppc s) || p_notified (ppc s) = true \/
+        (c_notif s = true /\ (tok_c s = true \/ c_isswap (cpc s) = true))
+}.
+
+Record WC3 (s : st) : Prop := {
+  W_D : c_dz (cpc s) = true ->
+        head s = ct s /\ (tail s = ct s \/ p_owes (ppc s) = true \/ p_wklock (ppc s) = true \/ cw_slot s = false);
+  W_D2 : c_ispark (cpc s) = true ->
+        p_aftersub (ppc s) = false \/ p_dwklock (ppc s) = true \/ cw_slot s = false
+}.
+
+Ltac case_pc x :=
+  destruct x;
+  repeat match goal with
+  | v : cctx |- _ => destruct v | v : sctx |- _ => destruct v | v : pctx |- _ => destruct v
+  | v : rg |- _ => destruct v | v : un |- _ => destruct v | v : wk |- _ => destruct v
+  | v : pp |- _ => destruct v | v : wctx |- _ => destruct v | v : bool |- _ => destruct v
+  | v : cuctx |- _ => destruct v | v : puctx |- _ => destruct v
+  end.
+
+Lemma c_cls pc :
+  (c_regging pc = true -> c_holds_cw pc = true) /\ (c_unreg1 pc = true -> c_holds_cw pc = true) /\
+  (c_rgst pc = true -> c_regging pc = true) /\
+  (c_reg pc = true -> c_holds_cw pc = false /\ c_fresh pc = false /\ c_regging pc = false /\ c_unreg0 pc = false /\ c_unreg1 pc = false) /\
+  (c_unreg0 pc = true -> c_holds_cw pc = false /\ c_fresh pc = false /\ c_reg pc = false /\ c_regging pc = false) /\
+  (c_dz pc = true -> c_reg pc = true /\ c_rgst pc = false) /\ (c_ispark pc = true -> c_dz pc = true) /\
+  (c_isswap pc = true -> c_reg pc = true).
+Proof. case_pc pc; cbn; repeat split; congruence. Qed.
+
+Section W.
+Variables cap phys : N.
+
+Ltac fin := intros; wcl_all; try discriminate; try assumption; try congruence; auto.
+
+Lemma p_cls pc :
+  (p_taking pc = true -> p_holds_cw pc = true /\ p_notified pc = false) /\
+  (p_notified pc = true -> p_taking pc = false).
+Proof. case_pc pc; cbn; repeat split; congruence. Qed.
+
+Lemma WCa_step s t c s' e :
+  LockInv s -> WCa s -> step cap phys s t c = Some (s', e) -> WCa s'.
+Proof.
+  intros [K1 K2 _ _] [H1 H2 H3 H4 H5 H6 H7 H8 H9 H10] Hs.
+  destruct t; cbn [step] in Hs; [unfold pstep in Hs | unfold cstep in Hs].
+  - destruct (ppc s) eqn:Epc; rewrite ?Epc in *; wcl_all; unf_steps; inv_step Hs; unf_steps; split_goal.
+    all: constructor; st_goal; rewrite ?Epc; wcl.
+    all: try assumption.
+    all: try solve [fin].
+    all: destruct (c_cls (cpc s)) as (Q1 & Q2 & Q3 & Q4 & Q5 & Q6 & Q7 & Q8);
+      destruct (c_holds_cw (cpc s)); cbn [orb andb] in *; try discriminate.
+    all: try solve [intuition congruence].
+    all: destruct (c_reg (cpc s)), (c_regging (cpc s)), (c_unreg0 (cpc s)), (c_fresh (cpc s)), (c_notif s);
+      cbn [orb andb] in *; try solve [intuition congruence].
+  - destruct (cpc s) eqn:Epc; rewrite ?Epc in *; wcl_all; unf_steps; inv_step Hs; unf_steps; split_goal.
+    all: constructor; st_goal; rewrite ?Epc; wcl.
+    all: try assumption.
+    all: try solve [fin].
+    all: destruct (p_cls (ppc s)) as (Q1 & Q2);
+      destruct (p_taking (ppc s)), (p_notified (ppc s)), (p_holds_cw (ppc s)), (c_notif s), (cw_slot s);
+      cbn [orb andb negb] in *; try solve [intuition congruence].
+Qed.
+
+Lemma WC3_step s t c s' e :
+  LifeInv s -> WCa s -> WC3 s -> step cap phys s t c = Some (s', e) -> WC3 s'.
+Proof.
+  intros HL [H1 H2 H3 H4 H5 H6 H7 H8 H9 H10] [D1 D2] Hs.
+  pose proof (L_sc _ HL) as Lsc. pose proof (L_pdr _ HL) as Lpdr. pose proof (L_pcl _ HL) as Lpcl.
+  pose proof (L_ccl _ HL) as Lccl. clear HL.
+  destruct t; cbn [step] in Hs; [unfold pstep in Hs | unfold cstep in Hs].
+  - destruct (ppc s) eqn:Epc; rewrite ?Epc in *; wcl_all; unf_steps; inv_step Hs; unf_steps; split_goal.
+    all: constructor; st_goal; rewrite ?Epc; wcl.
+    all: try assumption.
+    all: try solve [fin].
+    all: try congruence.
+    all: try (rewrite Lsc in *; discriminate).
+    all: try (rewrite (Lpdr eq_refl) in *; wcl_all; discriminate).
+    all: destruct (c_cls (cpc s)) as (Q1 & Q2 & Q3 & Q4 & Q5 & Q6 & Q7 & Q8).
+    all: try solve [intuition congruence].
+    { intros X. destruct (D1 X) as [A B]. split; [exact A|]. destruct (cw_slot s) eqn:Es; [|auto].
+      exfalso. rewrite (H5 eq_refl (proj2 (Q6 X))) in E. discriminate. }
+  - destruct (cpc s) eqn:Epc; rewrite ?Epc in *; wcl_all; unf_steps; inv_step Hs; unf_steps; split_goal.
+    all: constructor; st_goal; rewrite ?Epc; wcl.
+    all: try assumption.
+    all: try solve [fin].
+    + intros _. split; [apply N.eqb_eq; exact E | left; reflexivity].
+    + intros _. destruct (p_aftersub (ppc s)); [rewrite Lsc in *; discriminate | left; reflexivity].
+Qed.
+End W.
